@@ -213,9 +213,53 @@ def two_label_bodies():
                     yield list(between) + [g1] + list(decl) + [("label", "a"), ("label", "b")] + list(tail)
 
 
+def run_module_chain():
+    """Scope across modules: a module sees the public constants of the files it imports and of no other file, however the files
+    are ordered and whatever the imported files import themselves (chains of 3 and 4 modules, diamond)."""
+    import itertools
+    from . import c12
+    limits = "pub const limit: i32 = 20;\n"
+    clamp = "import \"limits.pn\";\n\npub fn clamp(x: i32) -> i32\n{\n\tvar r: i32 = x;\n\tif x > limit\n\t{\n\t\tr = limit;\n\t}\n\treturn: r\n}\n"
+    relay = "import \"clamp.pn\";\n\npub fn relay(x: i32) -> i32\n{\n\treturn: clamp(x)\n}\n"
+    other = "import \"limits.pn\";\n\npub fn twice() -> i32\n{\n\treturn: limit + limit\n}\n"
+    mains = {
+        "shadow": ("import \"%s\";\n\nfn main() -> i32\n{\n\tvar limit: i32 = 13;\n\treturn: %s(limit)\n}\n", ("ok", 13)),
+        "shadow_param": ("import \"%s\";\n\nfn pick(limit: i32) -> i32\n{\n\treturn: %s(limit)\n}\n\nfn main() -> i32\n{\n\treturn: pick(13)\n}\n", ("ok", 13)),
+        "own_constant": ("import \"%s\";\n\nconst limit: i32 = 13;\n\nfn main() -> i32\n{\n\treturn: %s(limit)\n}\n", ("ok", 13)),
+        "leak": ("import \"%s\";\n\nfn main() -> i32\n{\n\treturn: %s(limit)\n}\n", ("rejected", 402)),
+        "imported": ("import \"%s\";\nimport \"limits.pn\";\n\nfn main() -> i32\n{\n\treturn: %s(limit + 5)\n}\n", ("ok", 20)),
+    }
+    out = []
+    for mname, (tmpl, (want, value)) in mains.items():
+        for cname, via, fn, extra in (("chain3", "clamp.pn", "clamp", []), ("chain4", "relay.pn", "relay", [("relay.pn", relay)]),
+                                      ("diamond", "clamp.pn", "clamp", [("other.pn", other)])):
+            files = [("main.pn", tmpl % (via, fn)), ("clamp.pn", clamp), ("limits.pn", limits)] + extra
+            for order in itertools.permutations(files):
+                got = c12.outcome(list(order))
+                replay = {"files": [list(f) for f in order], "expected": [want, value]}
+                cov = {"module_chain_orders": 1}
+                if got[0] == "crash":
+                    out.append({"verdict": VIOLATED, "sig": "module chain (%s): %s" % (mname, got[1]), "detail": got[1], "replay": replay, "cov": cov})
+                elif want == "ok" and got[0] != "ok":
+                    out.append({"verdict": VIOLATED, "sig": "legal use of a name rejected with %s: a constant of a file that is not imported "
+                                "is in scope (%s, %s)" % (list(got[1]), mname, cname), "detail": list(got[1]), "replay": replay, "cov": cov})
+                elif want == "ok" and got[1][1] != value:
+                    out.append({"verdict": VIOLATED, "sig": "name resolves to a different declaration across modules (%s, %s)" % (mname, cname),
+                                "detail": {"expected": value, "observed": got[1][1]}, "replay": replay, "cov": cov})
+                elif want == "rejected" and (got[0] != "rejected" or value not in got[1]):
+                    out.append({"verdict": VIOLATED, "sig": "constant of a file that is not imported is usable (%s)" % cname
+                                if got[0] == "ok" else "wrong codes %s for a constant that is not imported (%s)" % (list(got[1]), cname),
+                                "detail": repr(got[:2])[:200], "replay": replay, "cov": cov})
+                else:
+                    out.append({"verdict": HELD, "nt": "modchain:%s:%s" % (mname, cname), "cov": cov})
+    return out
+
+
 def run_case(case):
     kind = case[0]
     out = []
+    if kind == "modchain":
+        return run_module_chain()
     if kind == "enum":
         _, which, size, depth, idx, n = case
         atoms = ATOMS_A if which == "A" else ATOMS_B
@@ -326,6 +370,7 @@ def main(tier, seed, replay=None):
     cases += [("multigoto", idx, n) for idx in range(n)]
     cases += [("skipnoise", idx, n) for idx in range(n)]
     cases += [("twolabels", idx, n) for idx in range(n)]
+    cases.append(("modchain",))
     nrand = 1500 if tier == "quick" else 60000
     cases += [("random", seed, i) for i in range(nrand)]
     for r in common.run_sharded(run_case, cases):
